@@ -222,9 +222,13 @@ Definition grun (ops : list op) : state * list crec := grun_from (init, []) ops.
    version, sorted write sets) together with the version of the probe node
    get_node_for_txn returned (the probe has one version per store version, so
    this is the read version), or None when the id is not in the table. *)
-Definition tobs := (iso * status * N * option N * list N * list N * N)%type.
-Definition obs := (result * N * list (option tobs))%type.
-Definition case := (N * list op * list obs)%type.
+(* (monomorphic constructors: large tuple/option literals are slow to elaborate) *)
+Inductive ov := NoV | V (v : N).
+Inductive tobs :=
+| NoT
+| T (i : iso) (st : status) (start : N) (commit : ov) (wn we : list N) (rv : N).
+Inductive obs := Ob (r : result) (c : N) (ts : list tobs).
+Inductive case := Case (k : N) (ops : list op) (os : list obs).
 
 Definition iso_eqb (a b : iso) : bool :=
   match a, b with RC, RC | SI, SI => true | _, _ => false end.
@@ -243,24 +247,26 @@ Fixpoint nlist_eqb (a b : list N) : bool :=
   | _, _ => false
   end.
 
-Definition optN_eqb (a b : option N) : bool :=
+Definition ov_of (o : option N) : ov := match o with Some v => V v | None => NoV end.
+
+Definition ov_eqb (a b : ov) : bool :=
   match a, b with
-  | None, None => true
-  | Some x, Some y => N.eqb x y
+  | NoV, NoV => true
+  | V x, V y => N.eqb x y
   | _, _ => false
   end.
 
-Definition tobs_of (s : state) (t : N) : option tobs :=
+Definition tobs_of (s : state) (t : N) : tobs :=
   match lookup t (txns s), read_version s t with
-  | Some x, Some rv => Some (t_iso x, t_status x, t_start x, t_commit x, t_wn x, t_we x, rv)
-  | _, _ => None
+  | Some x, Some rv => T (t_iso x) (t_status x) (t_start x) (ov_of (t_commit x)) (t_wn x) (t_we x) rv
+  | _, _ => NoT
   end.
 
-Definition tobs_eqb (a b : option tobs) : bool :=
+Definition tobs_eqb (a b : tobs) : bool :=
   match a, b with
-  | None, None => true
-  | Some (i1, s1, b1, c1, wn1, we1, r1), Some (i2, s2, b2, c2, wn2, we2, r2) =>
-      iso_eqb i1 i2 && status_eqb s1 s2 && N.eqb b1 b2 && optN_eqb c1 c2 &&
+  | NoT, NoT => true
+  | T i1 s1 b1 c1 wn1 we1 r1, T i2 s2 b2 c2 wn2 we2 r2 =>
+      iso_eqb i1 i2 && status_eqb s1 s2 && N.eqb b1 b2 && ov_eqb c1 c2 &&
       nlist_eqb wn1 wn2 && nlist_eqb we1 we2 && N.eqb r1 r2
   | _, _ => false
   end.
@@ -276,9 +282,11 @@ Fixpoint all2 {A B} (f : A -> B -> bool) (a : list A) (b : list B) : bool :=
   end.
 
 Definition obs_ok (k : N) (s : state) (res : result) (o : obs) : bool :=
-  let '(r, c, ts) := o in
-  result_eqb res r && N.eqb (cur s) c &&
-  all2 tobs_eqb (map (tobs_of s) (ids_upto (N.to_nat k))) ts.
+  match o with
+  | Ob r c ts =>
+      result_eqb res r && N.eqb (cur s) c &&
+      all2 tobs_eqb (map (tobs_of s) (ids_upto (N.to_nat k))) ts
+  end.
 
 Fixpoint check_from (k : N) (s : state) (ops : list op) (os : list obs) : bool :=
   match ops, os with
@@ -290,4 +298,4 @@ Fixpoint check_from (k : N) (s : state) (ops : list op) (os : list obs) : bool :
   end.
 
 Definition check_case (c : case) : bool :=
-  let '(k, ops, os) := c in check_from k init ops os.
+  match c with Case k ops os => check_from k init ops os end.
